@@ -383,7 +383,6 @@ Section Quiet.
     intros b ctx d t w d' log s c H Hwf Hq. unfold do_delete in H.
     destruct (get_table d t) as [tb|] eqn:Et; [|inversion H; reflexivity].
     destruct (is_none w && can_use_truncate d t); [discriminate|].
-    destruct (select_rows ctx w (indexed 0 (tb_rows tb))) as [cands|]; [|inversion H; reflexivity].
     unfold fireS, fireRs in H.
     destruct (if is_none ctx then fire_stmt db run_body b (d_trigs d) t Before EvDelete d else (d, [], None)) as [[d1 l1] r1] eqn:E1.
     destruct r1 as [c1|].
@@ -395,7 +394,7 @@ Section Quiet.
       destruct (opt_stmt_quiet _ _ _ _ _ _ _ _ _ _ E1 Hwf Hq1) as [He _]. specialize (He eq_refl). subst d1.
       eapply fire_rows_quiet; eauto. }
     destruct (match s_pk (tb_schema tb) with
-              | Some c0 => cascade_deletes t c0 cands 0 d2 0
+              | Some c0 => cascade_deletes t c0 (collect_rows ctx w (indexed 0 (tb_rows tb))) 0 d2 0
               | None => (d2, None, 0) end) as [[d3 r3] m3] eqn:E3.
     assert (Hm3 : m3 = 0 -> d3 = d2).
     { intro Hm. destruct (s_pk (tb_schema tb)); [|inversion E3; reflexivity].
